@@ -133,6 +133,24 @@ class MiniEval(object):
                         raise
             elif isinstance(s, ast.Pass):
                 pass
+            elif isinstance(s, ast.For) and isinstance(s.iter, ast.Name) and not s.orelse:
+                # a loop over a module-level constant table of (type, name) pairs: unrolled
+                table = self._module_constant(s.iter.id)
+                if table is None:
+                    raise _Undecidable('statement %s' % norm(s)[:60])
+                for row in table:
+                    elts = row.elts if isinstance(row, (ast.Tuple, ast.List)) else [row]
+                    tgts = s.target.elts if isinstance(s.target, ast.Tuple) else [s.target]
+                    if len(elts) != len(tgts):
+                        raise _Undecidable('unpacking in %s' % norm(s)[:60])
+                    for t, v in zip(tgts, elts):
+                        if not isinstance(t, ast.Name):
+                            raise _Undecidable('loop target %s' % norm(t))
+                        if isinstance(v, ast.Constant):
+                            env[t.id] = Val('const', type(v.value).__name__, v.value)
+                        else:
+                            env[t.id] = Val('typeexpr', None, v)
+                    self.block(s.body, env, fn)
             else:
                 raise _Undecidable('statement %s' % norm(s))
 
@@ -215,7 +233,7 @@ class MiniEval(object):
                 raise _Undecidable('method %s on %r' % (e.func.attr, v))
             if fnm == 'isinstance' and len(e.args) == 2:
                 v = self.ev(e.args[0], env, fn)
-                classes = self.classes(e.args[1])
+                classes = self.classes(e.args[1], env)
                 if v.kind == 'cmp':
                     return Val('const', 'bool', 'Comparable' in classes)
                 if v.kind == 'raw':
@@ -239,9 +257,22 @@ class MiniEval(object):
             raise _Undecidable('call %s' % norm(e))
         raise _Undecidable('expression %s' % norm(e))
 
-    def classes(self, node):
+    def _module_constant(self, name):
+        tree = getattr(self.module, 'tree', None)
+        if tree is None:
+            return None
+        vals = [st.value for st in tree.body if isinstance(st, ast.Assign) and
+                any(isinstance(t, ast.Name) and t.id == name for t in st.targets)]
+        if len(vals) == 1 and isinstance(vals[0], (ast.Tuple, ast.List)):
+            return list(vals[0].elts)
+        return None
+
+    def classes(self, node, env=None):
         out = set()
         for n in (node.elts if isinstance(node, ast.Tuple) else [node]):
+            if env is not None and isinstance(n, ast.Name) and n.id in env and env[n.id].kind == 'typeexpr':
+                out |= self.classes(env[n.id].inner, None)
+                continue
             nm = norm(n)
             if nm in PY3_NAMES:
                 out |= set(PY3_NAMES[nm])
@@ -359,7 +390,7 @@ def _table_for(ctx, rep, m, ci):
     src = norm(init.node)
     ok_init = False
     for n in ast.walk(init.node):
-        if isinstance(n, ast.If) and 'isinstance' in norm(n.test) and 'list' in norm(n.test) and 'tuple' in norm(n.test):
+        if isinstance(n, (ast.If, ast.IfExp)) and 'isinstance' in norm(n.test) and 'list' in norm(n.test) and 'tuple' in norm(n.test):
             for s in ast.walk(n):
                 if isinstance(s, ast.Call) and norm(s.func) == 'tuple' and s.args and \
                         isinstance(s.args[0], ast.GeneratorExp) and isinstance(s.args[0].elt, ast.Call) and \
